@@ -1,0 +1,26 @@
+//go:build verif
+
+package config
+
+// Contracts for govc (contract-based deductive verification; see /verif/DESIGN.md).
+// This file holds only comments and is compiled only with -tags verif.
+
+// C07 safety sweep: any value is admitted. Decode / decodeString are reflection-driven and not under contract.
+// Termination of Normalize's recursion is NOT proved: it needs an acyclic value (a slice or map that contains itself
+// makes Normalize recurse until the stack is exhausted); values decoded from YAML / JSON text are trees.
+
+//@ func Normalize
+//@   tags C07
+//@   loop 2 invariant -1 <= rangeindex && rangeindex < len(x)
+//@   loop 2 decreases len(x) - rangeindex
+//@   ensures [C07.norm.err] result1 != nil ==> result == nil
+
+// uncapitalize indexes vv[0] of vv := []rune(str) for a non-empty str (the conversion yields at least one rune).
+//@ func uncapitalize
+//@   tags C07
+//@   modifies nothing
+
+// PrefixedBy: Normalize first (see above for its termination caveat), then two map scans.
+//@ func PrefixedBy
+//@   tags C07
+//@   ensures [C07.prefix.err] result1 != nil ==> result == input
